@@ -228,6 +228,10 @@ def build_grids(ks, mol):
 # ---------------------------------------------------------------------------------
 # calculator-level histories
 # ---------------------------------------------------------------------------------
+def g_size_probe(hist, gi):
+    return (hist["grids"][gi].get("atom_grid") or [0, 0])[0] >= 200
+
+
 def gen_ni_history(seed):
     rng = Rng(derive("c09-ni", seed))
     nm = rng.weighted([(1, 3), (2, 2)])
@@ -248,6 +252,13 @@ def gen_ni_history(seed):
             mols.append({"name": rng.choice(NI_MOLS), "basis": rng.choice(["sto-3g", "sto-3g", "6-31g"]), "dseed": rng.below(10**6)})
     gcfgs = [{"level": 0, "prune": True}, {"level": 0, "prune": False}, {"atom_grid": [14, 50]}, {"atom_grid": [20, 86]}, {"level": 1, "prune": True}]
     grids = [rng.choice(gcfgs) for _ in range(rng.randint(1, 2))]
+    big = bool(rng.chance(0.08))
+    if big:
+        # a grid above the integrators' block cap (1200 * BLKSIZE = 67200 points): several
+        # blocks even at the default memory budget, one atom so that it stays cheap
+        mols = [{"name": rng.choice(["He", "He", "Li", "O"]), "basis": "sto-3g", "dseed": rng.below(10**6)}]
+        nmol = 1
+        grids = [{"atom_grid": [200, 434], "prune": False}]
     ops = []
     for _ in range(rng.randint(3, 8)):
         c = rng.weighted([("call", 8), ("reset", 1), ("build", 1), ("regrid", 1), ("regrid_inplace", 2 if nmol > 1 else 0)])
@@ -261,7 +272,9 @@ def gen_ni_history(seed):
                     "grid": rng.below(len(grids)),
                     "uks": bool(rng.chance(0.45)),
                     "dms": [rng.below(3) for _ in range(nset)],
-                    "max_memory": rng.choice(MAXMEMS),
+                    "max_memory": rng.choice([2000, 2000, 4000, 100, 4, 1.0]) if big else rng.choice(MAXMEMS),
+                    # a second long-lived calculator for the same model (two KS objects in one script)
+                    "calc": int(rng.chance(0.25)),
                     # a Python list of matrices is rejected by the CIDER integrators (AttributeError on .ndim):
                     # a rejection, not a result, so only stacked arrays are generated
                     "container": "array" if nset > 1 else "single",
@@ -322,7 +335,7 @@ def exec_ni_history(hist, rp):
         stats["op_" + c] += 1
         dg.add(c)
         if c in ("reset", "build"):
-            ks = calcs.get(op["model"])
+            ks = calcs.get((op["model"], 0))
             if ks is not None:
                 mol = U.mol(op["mol"])
                 if c == "reset":
@@ -351,7 +364,11 @@ def exec_ni_history(hist, rp):
         mi, k, gi, uks = op["model"], op["mol"], op["grid"], op["uks"]
         model = U.model(mi)
         mol = U.mol(k)
-        ck = mi  # ONE long-lived calculator per model: it sees restricted and unrestricted calls
+        ck = (mi, op.get("calc", 0))  # long-lived calculators: each sees restricted and unrestricted calls
+        if op.get("calc"):
+            stats["calls_on_second_calculator_of_a_model"] += 1
+        if g_size_probe(hist, gi):
+            stats["calls_on_grid_above_block_cap"] += 1
         if ck not in calcs:
             ks = make_ks(model, mol, False, hist["grids"][gi], hist["models"][mi])
             ks.build()
@@ -492,17 +509,21 @@ def gen_gen_history(seed):
         ops = []
         npool = 3
         have = set()
+        # several generator objects alive at once (same settings): their calls interleave
+        nobj = rng.weighted([(1, 3), (2, 2)])
         for _ in range(rng.randint(3, 9)):
             s = rng.below(p["nspin"])
             if s in have and rng.chance(0.5):
-                ops.append({"op": "pot", "spin": s, "v": rng.below(npool), "alias": rng.choice([None, None, "readonly"])})
+                ops.append({"op": "pot", "spin": s, "v": rng.below(npool), "alias": rng.choice([None, None, "readonly"]), "obj": rng.below(nobj)})
             else:
                 # mode: "plain" = sorted-grid layout (energy path); "nomap" / "grad" = atomic-grid
                 # layout without / with the force intermediates (what the gradient code calls on
                 # the calculator's generator between energy evaluations)
-                ops.append({"op": "feat", "spin": s, "rho": rng.below(npool), "alias": rng.choice([None, None, "readonly", "view"]), "mode": rng.weighted([("plain", 6), ("nomap", 2), ("grad", 2)])})
+                # alias "reuse": the caller keeps one workspace array per spin and refills it in
+                # place before calling again (what an SCF driver with preallocated buffers does)
+                ops.append({"op": "feat", "spin": s, "rho": rng.below(npool), "alias": rng.choice([None, None, "readonly", "view", "reuse", "reuse"]), "mode": rng.weighted([("plain", 6), ("nomap", 2), ("grad", 2)]), "obj": rng.below(nobj)})
                 have.add(s)
-        return {"kind": "nldfgen", "params": p, "ops": ops, "perturb": rng.choice(PERTURBS)}
+        return {"kind": "nldfgen", "params": p, "ops": ops, "nobj": nobj, "perturb": rng.choice(PERTURBS)}
     p = W.draw_sdmx_params(rng)
     p["nspin"] = rng.choice([1, 2])
     ops = []
@@ -576,8 +597,10 @@ def exec_nldfgen_history(hist, rp):
             stats["reference_calls"] += 1
         return fresh[("p", i, j, s, mode)]
 
+    gens = [gen] + [W._make_nldfgen(p)[3] for _ in range(int(hist.get("nobj", 1)) - 1)]
     last_rho = {}
     last_mode = {}
+    work = {}  # (obj, spin, shape) -> the caller's persistent workspace array
     held = []  # (label, returned array object, copy at return time)
 
     def check_held(step):
@@ -590,12 +613,25 @@ def exec_nldfgen_history(hist, rp):
         stats["op_" + op["op"]] += 1
         dg.add(op["op"], op["spin"])
         s = op["spin"]
+        oi = op.get("obj", 0) % len(gens)
+        gen = gens[oi]
+        sk = (oi, s)
+        if len(gens) > 1:
+            stats["ops_on_second_live_object"] += int(oi > 0)
         check_held(step)
         if op["op"] == "feat":
             mode = op.get("mode", "plain")
             stats["feat_mode_" + mode] += 1
             nrow, ncol = rho_of(op["rho"], mode).shape
             arr = rho_of(op["rho"], mode).copy()
+            if op["alias"] == "reuse":
+                wk = (oi, s, arr.shape)
+                if wk in work:
+                    work[wk][...] = arr  # refilled in place: same array object as last time
+                    stats["workspace_refilled_in_place"] += 1
+                else:
+                    work[wk] = arr
+                arr = work[wk]
             if op["alias"] == "readonly":
                 arr.setflags(write=False)
             elif op["alias"] == "view":
@@ -615,14 +651,14 @@ def exec_nldfgen_history(hist, rp):
             stats["comparisons"] += 1
             if not ok:
                 V("history_vs_fresh:LCAONLDFGenerator.get_features:feat:spin%d" % s + ("" if mode == "plain" else ":" + mode), "step %d: %s" % (step, why))
-            last_rho[s] = op["rho"]
-            last_mode[s] = mode
+            last_rho[sk] = op["rho"]
+            last_mode[sk] = mode
             if len(last_rho) > 1:
                 stats["spin_interleavings"] += 1
         else:
-            if s not in last_rho:
+            if sk not in last_rho:
                 continue
-            mode = last_mode[s]
+            mode = last_mode[sk]
             arr = v_of(op["v"], mode).copy()
             if op["alias"] == "readonly":
                 arr.setflags(write=False)
@@ -638,7 +674,7 @@ def exec_nldfgen_history(hist, rp):
             # the feature pass for the potential pass)
             scribble(hist, stats, arr)
             pots = list(pot) if isinstance(pot, tuple) else [pot]
-            refs = ref_pot(last_rho[s], op["v"], s, mode)
+            refs = ref_pot(last_rho[sk], op["v"], s, mode)
             for k, (pk, rk) in enumerate(zip(pots, refs)):
                 held.append(("get_potential", pk, np.array(pk, copy=True)))
                 ok, why = close(pk, rk)
@@ -1064,14 +1100,15 @@ def gen_plan_history(seed):
     p["n"] = rng.choice([22, 33, 64, 100, 257])
     ops = []
     have = set()
+    nobj = rng.weighted([(1, 3), (2, 2)])  # several plan objects of the same settings alive at once
     for _ in range(rng.randint(3, 9)):
         s = rng.below(p["nspin"])
         if s in have and rng.chance(0.5):
-            ops.append({"op": "vxc", "spin": s, "v": rng.below(3)})
+            ops.append({"op": "vxc", "spin": s, "v": rng.below(3), "obj": rng.below(nobj)})
         else:
-            ops.append({"op": "rho", "spin": s, "f": rng.below(3), "rho": rng.below(3), "cache_p": bool(rng.chance(0.85))})
+            ops.append({"op": "rho", "spin": s, "f": rng.below(3), "rho": rng.below(3), "cache_p": bool(rng.chance(0.85)), "obj": rng.below(nobj)})
             have.add(s)
-    return {"kind": "plan", "params": p, "ops": ops, "perturb": rng.choice(PERTURBS)}
+    return {"kind": "plan", "params": p, "ops": ops, "nobj": nobj, "perturb": rng.choice(PERTURBS)}
 
 
 def exec_plan_history(hist, rp):
@@ -1098,7 +1135,8 @@ def exec_plan_history(hist, rp):
         lambd = float((3e4 / alpha0) ** (1.0 / (p["nalpha"] - 1)))
         return cls(nl, p["nspin"], alpha0, lambd, p["nalpha"], coef_order=p["order"], alpha_formula=p["formula"])
 
-    plan = make_plan()
+    plans = [make_plan() for _ in range(int(hist.get("nobj", 1)))]
+    plan = plans[0]
     n = p["n"]
     nrho = 5 if nl.sl_level == "MGGA" else 4
     nprng = np.random.default_rng(p["dseed"])
@@ -1139,6 +1177,10 @@ def exec_plan_history(hist, rp):
     last = {}
     for step, op in enumerate(hist["ops"]):
         s = op["spin"]
+        oi = op.get("obj", 0) % len(plans)
+        plan = plans[oi]
+        sk = (oi, s)
+        stats["ops_on_second_live_object"] += int(oi > 0)
         stats["op_plan_" + op["op"]] += 1
         dg.add(op["op"], s)
         try:
@@ -1156,11 +1198,11 @@ def exec_plan_history(hist, rp):
                     stats["comparisons"] += 1
                     if not ok:
                         V("history_vs_fresh:%s.eval_rho_full:%s:spin%d" % (site, name, s), "step %d: %s" % (step, why))
-                last[s] = (op["f"], op["rho"], np.array(dfeat, copy=True), op["cache_p"])
+                last[sk] = (op["f"], op["rho"], np.array(dfeat, copy=True), op["cache_p"])
             else:
-                if s not in last or not last[s][3]:
+                if sk not in last or not last[sk][3]:
                     continue
-                i, j, dfeat, _ = last[s]
+                i, j, dfeat, _ = last[sk]
                 v_in, r_in = vfs[op["v"]].copy(), rhos[j].copy()
                 b = adigest(v_in, r_in, dfeat)
                 vrho = np.zeros_like(r_in)
